@@ -8,7 +8,7 @@ prop="$1"; shift
 d=$(mktemp -d /root/scratch/mut.XXXXXX)
 mkdir -p "$d/src"
 cp -r /repo/src/rsatoolbox "$d/src/"
-(cd "$d" && git init -q . && git apply --whitespace=nowarn "$patch")
+(cd "$d" && git init -q . && (git apply --whitespace=nowarn "$patch" 2>/dev/null || patch -p1 -s -F3 < "$patch"))
 VERIF_REPO_SRC="$d/src" VERIF_NO_EVIDENCE=1 /venv/bin/python /verif/sim/cli.py check "$prop" "$@" || rc=$?
 rm -rf "$d"
 exit ${rc:-0}
